@@ -169,7 +169,7 @@ PROPS["C02"] = dict(
     level_text=("A graph generator wires every pointer slot of 1-9 nodes to any node (or nil), interleaving items of every reference-counted kind. Oracle: encoding "
                 "terminates; the independent reader accepts the stream and its resolved graph is bisimilar to the original, so every back-reference points at the item "
                 "the encoder meant even when encoder and decoder share a numbering error; each distinct reachable object is defined exactly once; the library's decoder "
-                "returns a bisimilar graph with the same number of distinct nodes (aliasing preserved), into typed and interface{} destinations. Node types also carry members that take a reference slot without being pointers (anonymous and empty structs, typed byte arrays, a shared pointer to an array of pointers), so a numbering error of either side shifts every later back-reference."),
+                "returns a bisimilar graph with the same number of distinct nodes (aliasing preserved), into typed and interface{} destinations. Node types also carry members that take a reference slot without being pointers (anonymous and empty structs, typed byte arrays, a shared pointer to an array of pointers), so a numbering error of either side shifts every later back-reference. An enumerated sub-check covers receivers whose struct lacks a member of the sender's class: an item first seen inside the dropped member and referred to again must resolve, for every kind of referable item and shape of the dropped member."),
     level_note="Graph sizes are bounded (<= 9 nodes); cyclic values are only encoded in reference mode (non-termination in simple mode is inherent).",
     rule=("rapid-drawn graphs over two node types with pointer, slice, map, array, *slice, *map and interface slots; 1 in 4 acyclic (DAG); clutter values of the enumerated "
           "kinds in interface slots. Non-trivial = the stream contains at least one r tag; classes has-cycle / has-sharing / clutter=<kind> are recorded. Distinct by (destination, graph text)."),
@@ -233,7 +233,7 @@ PROPS["C14"] = dict(
                 "together, mixing encode and decode of the nesting and the nested type; every result must equal the bytes/value computed for that family alone and the binary runs "
                 "under the race detector. (b) A decoded value's canonical form must not change after the input buffer is overwritten and pooled coders are recycled. (c) A rapid "
                 "state machine interleaves pooled decode/encode operations (both modes, decoder options, failing inputs, double encodes, RPC codec messages with and without the "
-                "simple header); each step must behave like a brand-new coder."),
+                "simple header); each step must behave like a brand-new coder. A further sub-check decodes lists into arrays that are shorter or longer than the list from several goroutines at once and verifies that values handed out earlier do not change."),
     level_note="(a) samples the Go scheduler: each family gives one chance per process for the racing window; volume (families x shards x tiers) makes it reliable for windows as wide as the struct registration. Built with -race in both tiers.",
     rule=("first-use: one case per family (all non-trivial: the first use happens inside the barrier window by construction); aliasing: rapid-drawn (type, value, mode, entry), non-trivial = the "
           "stream contains a string or byte payload; pool-hygiene: rapid histories, non-trivial = a step that follows a failing or reference-mode step; warm: concurrent round trips. Distinct by case text."),
@@ -253,7 +253,7 @@ PROPS["C08"] = dict(
                 "reach the missing-method handler when installed and be an error otherwise. The catalogue includes context-taking functions with interface, variadic, map and pointer "
                 "parameters (nil arguments) and names whose cased letters are not ASCII; one sub-check sends several calls of different functions through one caller context; "
                 "another has 2-12 callers on one client at once behind a one-worker pool. The same differential is run in the provider direction: the catalogue published on a "
-                "reverse Provider and called from the service side through Caller proxies and Caller.InvokeContext over tcp, unix, websocket and http."),
+                "reverse Provider and called from the service side through Caller proxies and Caller.InvokeContext over tcp, unix, websocket and http. A further sub-check publishes an object tree with AddAllMethods (methods and func fields on named, embedded and pointer members, three levels) and net/rpc style methods, and calls them through proxies of the same layout with and without a namespace."),
     level_note="The http client transport is net/http by default; the shard set with VERIF_HTTP_CLIENT=fasthttp uses the fasthttp client transport (the scheme registry is process-global).",
     rule=("remote-vs-local: rapid-drawn calls; non-trivial = at least one non-zero argument. Classes: transport x outcome (ok/error/panic), mode (proxy/invoke/ns), pool, function. "
           "missing-method: generated unknown names x handler installed or not. Distinct by case text."),
@@ -275,7 +275,7 @@ PROPS["C09"] = dict(
                 "repeated identifiers; and a forced interleaving (verif yield point in Caller.begin) in which calls are queued exactly while the provider's begin is between its queue "
                 "check and its registration; and sequences of reverse calls separated by pauses around and beyond the caller's idle time-out, where the provider must keep serving and no call may be lost in the hand-over between two begins. (e) Websocket connection churn (both servers): short-lived connections ended by the server or abandoned by the client while slow calls are "
                 "being answered, 8 at a time. One extra process per run executes (e) and the concurrent-caller sub-checks from a race-detector build, so a connection whose buffers are "
-                "still in use when the server recycles them, or any other unsynchronised access on these paths, is reported."),
+                "still in use when the server recycles them, or any other unsynchronised access on these paths, is reported. A further sub-check has 2-5 concurrent calls with arguments and results of 1-3 MiB each on one client."),
     level_note="Completion order is controlled by the harness (gates inside the service function, scripted peers); the interleaving of the callers' registrations is left to the Go scheduler and sampled.",
     rule=("real-service / reverse-provider: rapid-drawn (endpoint, callers, completion order); all non-trivial (>= 2 concurrent calls). scripted-peer / reverse-scripted: non-trivial = the script contains "
           "at least one stray or duplicate. udp-wrap: fixed scenarios x pool x release order. reverse-forced: transport x earlier calls x calls in the window, all non-trivial. reverse-idle: non-trivial = at least one pause reaches the idle time-out. Distinct by case text."),
@@ -295,7 +295,7 @@ PROPS["C12"] = dict(
                 "headers, every combination of declared/actual length on UDP after another client's long datagram, short socket bodies then close/half-close/stall, HTTP bodies shorter "
                 "than Content-Length and chunked bodies: nothing may be delivered unless consistent. (e) a scripted peer sends the real client corrupted or inconsistent responses: "
                 "the caller must get an error, never bytes. (f) A conforming websocket peer sends requests in fragments of 1-7 bytes and messages shorter than the index header. "
-                "(g) A caller gives up an 8 MiB request that a slow peer is still reading and reuses its buffer: the service side must receive the submitted bytes or nothing."),
+                "(g) A caller gives up an 8 MiB request that a slow peer is still reading and reuses its buffer: the service side must receive the submitted bytes or nothing. Two further sub-checks: the service behind a front end that compresses responses for clients announcing gzip (both http clients, compression on and off), and raw peers that pipeline many echo requests on a stream socket and read the responses late, with an echo that returns the request slice itself."),
     level_note="On stream sockets and HTTP a declared length smaller than what follows is not generated: the surplus is by definition the next message of the same sender.",
     rule=("round-trip: rapid-drawn (endpoint, lengths, content), non-trivial = non-empty message; every-length / header-bit / declared-length / http-bodies / client-side-frames: enumerated, all non-trivial. "
           "Classes: transport, content kind, multi-buffer sizes, over-datagram, declared smaller/larger/equal. Distinct by case text."),
@@ -312,7 +312,7 @@ PROPS["C13"] = dict(
                 "over the limit the IO plugin and the function must see nothing and the caller must get a request-too-large error, then the next call must succeed; at or below the "
                 "limit the request must be processed exactly once. (b) hand-made HTTP POST/GET with truthful, chunked (no length) and understated Content-Length on the four HTTP-capable "
                 "servers. (c) hand-made socket frames, datagrams and websocket messages with truthful, understated and overstated lengths. In every case nothing longer than the limit "
-                "may ever reach the IO plugin."),
+                "may ever reach the IO plugin. UDP requests just above the datagram capacity must be refused by the client with the same error; limits of 2^31 and above must let everything through."),
     level_note="The limit is changed on the live service between cases (the handlers read it per request); cases on one endpoint are serialised.",
     rule=("rapid-drawn cases; all non-trivial (a limit is set and the size is chosen relative to it). Classes: transport x declaration x over/within, exact edges (size = limit, limit+1), pool, "
           "call versus raw bytes, HTTP method. Distinct by case text."),
@@ -330,7 +330,7 @@ PROPS["C11"] = dict(
                 "followed by a broken frame) - is run on every transport it applies to (mock, tcp, unix, udp, websocket x2, http, fasthttp; worker pool 0/8; also behind the ExecuteTimeout and Oneway plugins) while a gated call of the same "
                 "client and one of another client are in flight: the faulty call must fail, the in-flight calls must complete (the same client's only unless the fault may cost its "
                 "connection), calls issued afterwards on both clients must succeed, and the process must survive. On UDP the result sizes around the datagram limit (65470..65500 bytes) are swept one by one. rapid draws sequences and bursts of faults per endpoint; small worker pools "
-                "(1, 2) face more dropped raw peers than they have workers. On the client side a scripted peer answers one of two pending calls with 15 kinds of faulty responses."),
+                "(1, 2) face more dropped raw peers than they have workers. On the client side a scripted peer answers one of two pending calls with 15 kinds of faulty responses. Endpoints also sit behind the ExecuteTimeout and Oneway plugins and behind a concurrent limiter as outermost IO plugin, where after every fault all slots must be available again; a request larger than MaxRequestLength is one of the faults."),
     level_note="Server, clients and harness share one process per shard: a fault that kills the process is reported by the driver as a violation attributed to the case that was executing.",
     rule=("every-fault: enumerated (endpoint x applicable fault), all non-trivial; fault-sequences: rapid-drawn sequences; small-pool / client-side: enumerated. Classes: transport x fault level "
           "(call / connection / raw peer), pool. Distinct by case text."),
@@ -349,7 +349,7 @@ PROPS["C10"] = dict(
                 "goroutine count must return to its level before the case. (b) The same terminators against real servers on all eight transports with slow (gated) functions, late "
                 "completions and a surviving call. (c) 25-150 rounds of failure and recovery per transport and terminator: nothing may accumulate. (d) Yield points in conn.Transport hold a "
                 "call before or after its registration while the connection is lost, the client aborted or the context cancelled. (e) A peer that stops reading blocks the sender with a "
-                "16 MiB call and two more queue behind it, then reset / abort / cancel. (f) The service-side ExecuteTimeout plugin."),
+                "16 MiB call and two more queue behind it, then reset / abort / cancel. (f) The service-side ExecuteTimeout plugin. Further sub-checks: caller contexts with a far deadline or a per-call time-out; a unix peer that shuts down only its receiving side (the client's write fails, its reads see nothing); a peer that accepts the connection and never completes the exchange (for websocket: the opening handshake), ended by time-out, caller deadline, cancellation or Abort, after which the peer recovers and the client must work; reverse calls given up while no provider listens must leave nothing queued."),
     level_note="Time bounds carry 0.7 s of scheduling slack and 'promptly' means within 1.5 s; a call is declared stuck only when it is still pending 5 s after its bound. Liveness is checked as bounded termination only.",
     rule=("rapid-drawn cases; non-trivial = the peer does not simply answer. forced-races / stalled-sender / no-accumulation / service-timeout: enumerated scenarios. Classes: transport x peer behaviour, "
           "terminator, timeout set or not, yield point x event. Distinct by case text."),
